@@ -978,14 +978,20 @@ impl MdkSqliteStorage {
             )
             .map_err(|e| Error::Database(e.to_string()))?;
 
-            conn.execute(
-                "DELETE FROM groups WHERE mls_group_id = ?",
-                [group_id_bytes],
-            )
-            .map_err(|e| Error::Database(e.to_string()))?;
+            // Delete the group row only when the snapshot holds none (the group did not exist when
+            // the snapshot was taken). Otherwise the row is kept and overwritten below: deleting it
+            // would cascade into `messages`, which are not part of the snapshot.
+            let snapshot_has_group = snapshot_rows.iter().any(|(t, _, _)| t == "groups");
+            if !snapshot_has_group {
+                conn.execute(
+                    "DELETE FROM groups WHERE mls_group_id = ?",
+                    [group_id_bytes],
+                )
+                .map_err(|e| Error::Database(e.to_string()))?;
+            }
 
-            // Note: The CASCADE will have deleted the snapshot rows, but we already
-            // have the data in memory (snapshot_rows).
+            // Note: Where the group row was deleted, the CASCADE will have deleted the snapshot
+            // rows, but we already have the data in memory (snapshot_rows).
 
             // 3. Restore from in-memory snapshot data
             // IMPORTANT: We must restore "groups" first because group_relays and
@@ -1031,7 +1037,21 @@ impl MdkSqliteStorage {
                     "INSERT INTO groups (mls_group_id, nostr_group_id, name, description, admin_pubkeys,
                                         last_message_id, last_message_at, last_message_processed_at, epoch, state,
                                         image_hash, image_key, image_nonce, last_self_update_at)
-                     VALUES (?, ?, ?, ?, ?, ?, ?, ?, ?, ?, ?, ?, ?, ?)",
+                     VALUES (?, ?, ?, ?, ?, ?, ?, ?, ?, ?, ?, ?, ?, ?)
+                     ON CONFLICT(mls_group_id) DO UPDATE SET
+                        nostr_group_id = excluded.nostr_group_id,
+                        name = excluded.name,
+                        description = excluded.description,
+                        admin_pubkeys = excluded.admin_pubkeys,
+                        last_message_id = excluded.last_message_id,
+                        last_message_at = excluded.last_message_at,
+                        last_message_processed_at = excluded.last_message_processed_at,
+                        epoch = excluded.epoch,
+                        state = excluded.state,
+                        image_hash = excluded.image_hash,
+                        image_key = excluded.image_key,
+                        image_nonce = excluded.image_nonce,
+                        last_self_update_at = excluded.last_self_update_at",
                     rusqlite::params![
                         mls_group_id,
                         nostr_group_id,
@@ -1133,11 +1153,11 @@ impl MdkSqliteStorage {
             )
             .map_err(|e| Error::Database(e.to_string()))?;
 
-            // 5. Re-insert other snapshots that were deleted by CASCADE
+            // 5. Re-insert other snapshots that were deleted by CASCADE (no-op where the group row was kept)
             // This preserves multiple snapshots when rolling back to one of them.
             for (snap_name, table_name, row_key, row_data, created_at) in &other_snapshots {
                 conn.execute(
-                    "INSERT INTO group_state_snapshots (snapshot_name, group_id, table_name, row_key, row_data, created_at)
+                    "INSERT OR REPLACE INTO group_state_snapshots (snapshot_name, group_id, table_name, row_key, row_data, created_at)
                      VALUES (?, ?, ?, ?, ?, ?)",
                     rusqlite::params![snap_name, group_id_bytes, table_name, row_key, row_data, created_at],
                 )
